@@ -30,14 +30,16 @@ type c14Case struct {
 
 type attr struct{ mod, file string }
 
-var c14Attrs = []attr{{"", ""}, {"a", "f1.fga"}, {"a", "f 2#,: x.fga"}, {"b", "f1.fga"}, {"b", ""}}
+// a file without a module is "unattributed" (it sorts by name with the other unattributed items): the statement's
+// determinism clauses cover such items too
+var c14Attrs = []attr{{"", ""}, {"a", "f1.fga"}, {"a", "f 2#,: x.fga"}, {"b", "f1.fga"}, {"b", ""}, {"", "f1.fga"}, {"", "zz.fga"}}
 
 // c14Modular enumerates modular models: three types whose module/file
 // attribution ranges over c14Attrs (at least one attributed), relations of the
 // first type attributed to extensions, conditions attributed likewise.
 func c14Modular(thorough bool) []gen.Tagged {
 	var out []gen.Tagged
-	relAttrs := []attr{{"", ""}, {"a", "f 2#,: x.fga"}, {"b", "f1.fga"}, {"a", "f1.fga"}}
+	relAttrs := []attr{{"", ""}, {"a", "f 2#,: x.fga"}, {"b", "f1.fga"}, {"a", "f1.fga"}, {"", "zz.fga"}, {"", "f1.fga"}}
 	n := len(c14Attrs)
 	for i := 0; i < n*n*n; i++ {
 		a := []attr{c14Attrs[i%n], c14Attrs[(i/n)%n], c14Attrs[i/(n*n)]}
@@ -45,7 +47,7 @@ func c14Modular(thorough bool) []gen.Tagged {
 			continue
 		}
 		for ra := 0; ra < len(relAttrs)*len(relAttrs); ra++ {
-			if !thorough && (i+ra)%5 != 0 {
+			if !thorough && (i+ra)%11 != 0 {
 				continue
 			}
 			r1, r2 := relAttrs[ra%len(relAttrs)], relAttrs[ra/len(relAttrs)]
@@ -470,13 +472,13 @@ func c14Run(ctx *core.Ctx) {
 func init() {
 	core.Register(&core.Check{
 		ID: "C14",
-		Rule: "plain models (generator families) and modular models (3 types x 5 module/file attributions incl. file names with space # , : ; relations attributed to extensions; 3 conditions) " +
+		Rule: "plain models (generator families) and modular models (3 types x 7 module/file attributions incl. file names with space # , : , module without file and file without module; relations attributed to extensions; 3 conditions) " +
 			"x both option values x every permutation of the type-definition list (modular) / reversal (plain) x map schedules of the printer's three map-iteration sites " +
 			"(each site fully permuted on its own, plus every pair of deviations anywhere) x 4 JSON encodings (object key order as marshalled/descending/ascending/rotated, at every nesting level). " +
 			"states = distinct DSL texts, non-trivial = distinct (plain, with-source) output pairs",
 		Assume: []string{
 			"map iteration order is owned by source rewriting of every `range <map>` in pkg/go/transformer (controlled iteration); protojson/encoding of third parties is treated as atomic",
-			"items with a file but no module are not generated (the statement does not say where they sort)",
+			"items with a file but no module count as unattributed (sorted by name among the unattributed items)",
 		},
 		Technique: "exhaustive exploration of map-iteration schedules (deviation-bounded stateless DFS over injected choice points) x input permutations, differential oracle plus independent order reference",
 		Run:       c14Run,
